@@ -4,6 +4,7 @@ PROP = dict(level="exploration", parts=[
     cxx("dense", "C03_nblist", ninja=CSG, shards=(8, 16), args=["--part", "dense"], timeout=dict(quick=900, thorough=10800)),
     cxx("excl", "C03_nblist", ninja=CSG, shards=(4, 8), args=["--part", "excl"]),
     cxx("reuse", "C03_reuse", ninja=CSG, shards=(4, 8)),
+    cxx("prochist", "C03_nblist", ninja=CSG, shards=(8, 16), args=["--part", "prochist"], timeout=dict(quick=900, thorough=10800)),
 ])
 TEXT = dict(engine="bsx", design_ref="DESIGN.md §3 C03",
    technique="exhaustive placement of 2 and 3 beads on fractional lattices x boxes x cutoffs, dense 64-bead blocks, and all small molecule/interaction topologies, against O(N^2)/O(N^3) brute force with an independent image search",
